@@ -323,26 +323,56 @@ def f_r5_counting(schema: Schema, rep: Report):
         for conds, _ in seg:
             for c, _w in conds:
                 atoms |= c.atoms()
-        cnt_atoms = [a for a in atoms if _re.search(r"sum\(\[.* is None for \w+ in \w+\]\)|sum\(\[.* for \w+ in \w+\]\)|sum\(\(", a) or "len([" in a]
-        if not cnt_atoms:
+        # the count: sum([P(m) for m in G]) / sum(P(m) for m in G) / sum(1 for m in G if P(m)) / len([m for m in G if P(m)])
+        def _count_parts(call_):
+            if not (isinstance(call_, ast.Call) and isinstance(call_.func, ast.Name) and call_.func.id in ("sum", "len") and len(call_.args) == 1):
+                return None
+            comp = call_.args[0]
+            if not (isinstance(comp, (ast.ListComp, ast.GeneratorExp)) and len(comp.generators) == 1 and isinstance(comp.generators[0].target, ast.Name)):
+                return None
+            g_ = comp.generators[0]
+            var_ = g_.target.id
+            if call_.func.id == "sum" and not g_.ifs:
+                return comp.elt, var_, text(g_.iter)
+            if len(g_.ifs) == 1 and ((call_.func.id == "len" and isinstance(comp.elt, ast.Name) and comp.elt.id == var_) or (call_.func.id == "sum" and isinstance(comp.elt, ast.Constant) and comp.elt.value == 1)):
+                return g_.ifs[0], var_, text(g_.iter)
+            return None
+
+        a = None
+        parts = None
+        for a_ in sorted(atoms):
+            try:
+                tree_ = ast.parse(a_, mode="eval").body
+            except SyntaxError:
+                continue
+            for x in ast.walk(tree_):
+                pr_ = _count_parts(x)
+                if pr_ is not None:
+                    a, parts, cexpr = a_, pr_, text(x)
+                    break
+            if a is not None:
+                break
+        if a is None:
             rep.note(f"F-R5 undecided for {which}: no count predicate recognised among {sorted(atoms)[:4]}")
             continue
-        a = cnt_atoms[0]
-        # the counted expression
-        cm = _re.search(r"sum\(\[(.*) for (\w+) in (\w+)\]\)", a)
-        counted_ok = False
-        if cm:
-            elt, var, grp = cm.groups()
-            elt_n = _re.sub(rf"\b{var}\b", "m", elt)
-            counted_ok = elt_n in (f"{kwname}.get(m, None) is not None", f"{kwname}.get(m) is not None", f"{kwname}[m] is not None") and grp == group
-            if not counted_ok:
-                rep.check("F-R5", f"validate_args:{which}:counts-supplied-members", False, f"the group count is sum([{elt} for {var} in {grp}]); expected the members of the group whose value in {kwname} is not None", f"{rel}:{loop.stmt.lineno}")
-                continue
-        else:
-            rep.note(f"F-R5 undecided for {which}: count expression `{a}` not understood")
+        pred_, var, grp = parts
+        pt_ = _re.sub(rf"\b{var}\b", "m", text(pred_))
+        supplied_forms = (f"{kwname}.get(m, None) is not None", f"{kwname}.get(m) is not None", f"{kwname}[m] is not None", f"m in {kwname} and {kwname}[m] is not None", f"None is not {kwname}.get(m, None)", f"None is not {kwname}.get(m)")
+        presence_forms = (f"m in {kwname}", f"m in {kwname}.keys()")
+        truthy_forms = (f"{kwname}.get(m, None)", f"{kwname}.get(m)", f"bool({kwname}.get(m, None))", f"bool({kwname}.get(m))", f"{kwname}[m]")
+        if grp != group:
+            rep.check("F-R5", f"validate_args:{which}:counts-supplied-members", False, f"the count ranges over {grp}, not over the group {group}", f"{rel}:{loop.stmt.lineno}")
+            continue
+        if pt_ in presence_forms:
+            rep.check("F-R5", f"validate_args:{which}:counts-supplied-members", False, f"group members are counted by `{text(pred_)}` (keyword present), not by their value: a member passed explicitly as None counts as supplied - an exactly-one group is satisfied by nothing at all, and a valid instance with one member and an explicit None is refused", f"{rel}:{loop.stmt.lineno}")
+            continue
+        if pt_ in truthy_forms:
+            rep.check("F-R5", f"validate_args:{which}:counts-supplied-members", False, f"group members are counted by the truth of `{text(pred_)}`: a member supplied with a falsy value (0, False, '') is not counted, so two members of an at-most-one group can be set", f"{rel}:{loop.stmt.lineno}")
+            continue
+        if pt_ not in supplied_forms:
+            rep.note(f"F-R5 undecided for {which}: counted condition `{text(pred_)}` not understood")
             continue
         rep.check("F-R5", f"validate_args:{which}:counts-supplied-members", True, "", f"{rel}:{loop.stmt.lineno}")
-        cexpr = cm.group(0)
         kind = None
         forms = {f"1 < {cexpr}": ("at-most-one", False), f"{cexpr} < 2": ("at-most-one", True), f"1 == {cexpr}": ("exactly-one", True), f"{cexpr} == 1": ("exactly-one", True),
                  f"{cexpr} in (0, 1)": ("at-most-one", True)}
